@@ -47,7 +47,7 @@ def validate(traces, tag="c02T", maxshards=None):
     good = [t for t in traces if "steps" in t]
     wd = tlc.workdir(tag)
     order = sorted(range(len(good)), key=lambda i: -len(json.dumps(good[i])))
-    nsh = max(1, min(maxshards or tlc.NCPU, len(good) // 8 or 1))
+    nsh = max(1, min(maxshards or max(2, tlc.NCPU // 2), len(good) // 8 or 1))
     shards = [[] for _ in range(nsh)]
     for k, i in enumerate(order):
         shards[k % nsh].append(good[i])
